@@ -137,5 +137,5 @@ End WithParams.
 
 (* Config.ShouldSkipFile on a file name *)
 Definition should_skip (c : config) (filename : string) : bool :=
-  existsb (fun ex => contains filename ex) (exclude_paths c)
+  existsb (fun ex => str_contains filename ex) (exclude_paths c)
   || (negb (scan_tests c) && has_suffix "_test.go" filename).
